@@ -335,8 +335,12 @@ static carquet_status_t flush_row_group(carquet_writer_t* writer) {
     rg_info->metadata.file_offset = writer->file_offset;
     rg_info->metadata.has_total_compressed_size = true;
     rg_info->metadata.total_compressed_size = (int64_t)size;
-    rg_info->metadata.has_ordinal = true;
-    rg_info->metadata.ordinal = (int16_t)writer->num_row_groups;
+    /* RowGroup.ordinal is an i16: from the 32769th row group on it cannot be expressed
+     * (the cast wrapped to negative ordinals) and the optional field is left out */
+    if (writer->num_row_groups <= INT16_MAX) {
+        rg_info->metadata.has_ordinal = true;
+        rg_info->metadata.ordinal = (int16_t)writer->num_row_groups;
+    }
 
     /* Build column chunks metadata */
     int num_cols = carquet_row_group_writer_num_columns(writer->current_row_group);
